@@ -168,7 +168,9 @@ static void large_configs(bool thorough) {
     uint64_t idx = 0;
     std::vector<size_t> sizes = {255, 256, 257, 65535, 65536, 65537, 70000};
     if (thorough) { sizes.push_back(131071); sizes.push_back(131072); sizes.push_back(131073); }
-    for (size_t size : sizes) for (uint32_t place : {0u, 5u}) for (int cs = 0; cs < 3; cs++) {
+    for (size_t size : sizes) for (uint32_t place : {0u, 5u, 65533u, 65536u}) for (int cs = 0; cs < 3; cs++) {
+        if ((uint64_t)place + 4 + size > MSIZE) continue;
+        if (place > 5 && size > 300) continue;   // placements across 2^16 with small images
         std::vector<long> auxes = {-1, 1, 255, 256, 4096, 65535, 65536, 65537, (long)size, (long)size + 1};
         for (long aux : auxes) {
             if (aux > (long)size + 1) continue;
